@@ -2,6 +2,7 @@ package main
 
 import (
 	"fmt"
+	"go/token"
 	"go/types"
 	"sort"
 
@@ -155,7 +156,7 @@ func guardedRule(c *Ctx, rule string, entries []*ssa.Function, re *Reach) {
 			if g == nil {
 				continue
 			}
-			if baseFresh(fr, a.Ins) {
+			if baseFresh(fr, a.Ins) || baseDetached(a.Ins) {
 				continue
 			}
 			nR++
@@ -279,4 +280,115 @@ func capEqLenForever(c *Ctx, g *ssa.Global) string {
 		why = fmt.Sprintf("it has %d initialising stores", nStores)
 	}
 	return why
+}
+
+// baseDetached: the struct whose field ins reads was taken out of the shared container by this computation: its
+// pointer derives only from results of (*list.List).Remove, possibly collected in a local slice variable (also one
+// captured by a deferred closure) by append. Such an object is no longer reachable through the list; the map entry
+// that led to its element is deleted in the same critical section (C07.keymatch requires that), so after the removal
+// only this goroutine holds it.
+func baseDetached(ins ssa.Instruction) bool {
+	var ops []*ssa.Value
+	ops = ins.Operands(ops)
+	for _, op := range ops {
+		if op == nil || *op == nil {
+			continue
+		}
+		v := *op
+		if ld, ok := v.(*ssa.UnOp); ok && ld.Op == token.MUL {
+			v = ld.X // the loaded field value is what is passed on
+		}
+		if fa, ok := v.(*ssa.FieldAddr); ok {
+			if removedFromList(fa.X, 0, map[ssa.Value]bool{}) {
+				return true
+			}
+		}
+	}
+	return false
+}
+
+func removedFromList(v ssa.Value, depth int, seen map[ssa.Value]bool) bool {
+	if depth > 8 || seen[v] {
+		return depth <= 8 // a cycle through a loop-carried slice adds nothing new
+	}
+	seen[v] = true
+	switch x := v.(type) {
+	case *ssa.TypeAssert:
+		return removedFromList(x.X, depth+1, seen)
+	case *ssa.Extract:
+		return removedFromList(x.Tuple, depth+1, seen)
+	case *ssa.ChangeType:
+		return removedFromList(x.X, depth+1, seen)
+	case *ssa.Call:
+		return calleeName(&x.Call) == "(*container/list.List).Remove"
+	case *ssa.Phi:
+		for _, e := range x.Edges {
+			if !removedFromList(e, depth+1, seen) {
+				return false
+			}
+		}
+		return len(x.Edges) > 0
+	case *ssa.UnOp:
+		if x.Op != token.MUL {
+			return false
+		}
+		// element of a local slice: every value the slice variable ever holds is nil or append(itself, removed…)
+		if ia, ok := x.X.(*ssa.IndexAddr); ok {
+			return sliceOfRemoved(ia.X, depth+1, seen)
+		}
+		// a single-assignment local
+		if vals, ok := cellValues(x.X); ok && len(vals) > 0 {
+			for _, sv := range vals {
+				if !removedFromList(sv, depth+1, seen) {
+					return false
+				}
+			}
+			return true
+		}
+	}
+	return false
+}
+
+func sliceOfRemoved(s ssa.Value, depth int, seen map[ssa.Value]bool) bool {
+	if depth > 8 {
+		return false
+	}
+	if seen[s] {
+		return true
+	}
+	seen[s] = true
+	switch x := s.(type) {
+	case *ssa.Const:
+		return x.IsNil()
+	case *ssa.Phi:
+		for _, e := range x.Edges {
+			if !sliceOfRemoved(e, depth+1, seen) {
+				return false
+			}
+		}
+		return len(x.Edges) > 0
+	case *ssa.UnOp:
+		if x.Op != token.MUL {
+			return false
+		}
+		vals, ok := cellValues(x.X)
+		if !ok || len(vals) == 0 {
+			return false
+		}
+		for _, sv := range vals {
+			if !sliceOfRemoved(sv, depth+1, seen) {
+				return false
+			}
+		}
+		return true
+	case *ssa.Call:
+		if b, ok := x.Call.Value.(*ssa.Builtin); ok && b.Name() == "append" && len(x.Call.Args) == 2 {
+			if !sliceOfRemoved(x.Call.Args[0], depth+1, seen) {
+				return false
+			}
+			el := variadicElem(x.Call.Args[1])
+			return el != nil && removedFromList(el, depth+1, seen)
+		}
+	}
+	return false
 }
